@@ -19,6 +19,10 @@ int rand_bytes(uint8_t *buf, size_t len)
 	__CPROVER_assert(len <= 64, "draw size");
 	for (size_t i = 0; i < len; i++) { buf[i] = nondet_u8(); g_last[i] = buf[i]; }
 	g_last_len = len;
+#ifdef SM9RR
+	/* bound: the third draw is below the range (the real sampler gives up after 100 rejected draws) */
+	if (me >= 2 && len == 32) { uint64_t v3; memcpy(&v3, buf + 24, 8); __CPROVER_assume(v3 < 0xb640000000000000ULL); }
+#endif
 	return 1;
 }
 typedef unsigned __CPROVER_bitvector[264] W;
@@ -87,3 +91,23 @@ void h_tls_random(void)
 	if (ret == 1) { CHECK(pms[0] == (TLS_protocol_tlcp >> 8) && pms[1] == (TLS_protocol_tlcp & 0xff), "version prefix"); for (int i = 0; i < 46; i++) CHECK(pms[2 + i] == g_last[i], "46 bytes from the entropy source"); }
 	V_REACH();
 }
+
+#ifdef SM9RR
+/* ---- sm9_z256_rand_range (used by every randomised SM9 operation) ---- */
+#include <gmssl/sm9_z256.h>
+void h_sm9_rand_range(void)
+{
+	g_fail_at = nondet_int(); ASSUME(g_fail_at >= -1 && g_fail_at <= 2);
+	sm9_z256_t r = { 0xdeadbeef, 1, 2, 3 };
+	const uint64_t *N = sm9_z256_order();
+	int ret = sm9_z256_rand_range(r, N);
+	if (g_failed) CHECK(ret != 1, "a failing draw (the first or a later one) is reported");
+	if (ret == 1) {
+		V_COVER("value delivered");
+		CHECK(val(r) < val(N), "the delivered value is below the range");
+		CHECK(g_last_len == 32 && r[0] == last_as_limbs(0) && r[1] == last_as_limbs(1) && r[2] == last_as_limbs(2) && r[3] == last_as_limbs(3), "the delivered value is the last successful draw");
+	}
+	if (g_failed && g_draws >= 2) V_COVER("failure on a re-draw");
+	V_REACH();
+}
+#endif
